@@ -171,6 +171,9 @@ func (c *Ctx) Count(key string, nontrivial bool, class string) {
 	c.classes[class]++
 }
 
+// Class counts an occurrence of an input class without counting an evaluation (distribution only)
+func (c *Ctx) Class(class string) { c.mu.Lock(); c.classes[class]++; c.mu.Unlock() }
+
 func (c *Ctx) Trace() { c.mu.Lock(); c.traces++; c.mu.Unlock() }
 
 func (c *Ctx) Sample(s interface{}) {
